@@ -13,6 +13,7 @@ for d in $LIST; do
   if ! ( cd "$M" && git apply "$OLDPWD/$d/patch.diff" 2>/dev/null ); then echo "$name PATCH-DOES-NOT-APPLY"; rm -rf "$M"; continue; fi
   if ! ( cd "$M" && go build ./... >/dev/null 2>&1 ); then echo "$name DOES-NOT-BUILD"; rm -rf "$M"; continue; fi
   VERIF_REPO="$M" timeout 1500 ./check $id quick > /tmp/seedsweep-$name.txt 2>&1; rc=$?
-  echo "$name rc=$rc $(grep -E '^  signature' /tmp/seedsweep-$name.txt | head -2 | tr '\n' ' ' | cut -c1-160)"
+  gap=$(python3 -c "import json;print('(known gap, see meta.json)' if json.load(open('$d/meta.json')).get('known_gap') else '')" 2>/dev/null)
+  echo "$name rc=$rc $gap $(grep -E '^  signature' /tmp/seedsweep-$name.txt | head -2 | tr '\n' ' ' | cut -c1-160)"
   rm -rf "$M"
 done
